@@ -319,6 +319,27 @@ def g2_inline_captures(ctx: Ctx):
     decide_ = [n for n in cfg.nodes_of('stmt') if any(call_name(k) == '_refuses' and (kw := kwarg(k, 'captures')) is not None and call_name(kw) == 'self._captures' for k in calls_in(n.ast))]
     ok = bool(spend) and bool(decide_) and all(find_path(cfg, cfg.entry, s_, avoid=lambda n: n in decide_) is None for s_ in spend)
     ctx.check(ok, FI_, vc, '_FuncInline._visit_call', 'the answer of `_captures` reaches `_refuses` before the index is spent', 'the index is spent on a path that has not asked')
+    # ... and the listing decides with what the rewrite will decide with: `_captures` reads `self.recursive` (the names a
+    # flattened callee captures include its callees'), so the rewriter a listing walks with is built with the caller's
+    # `recursive`, whose default in `sites` / `refusals` is the rewrite's
+    reads_rec = any(isinstance(x, ast.Attribute) and x.attr == 'recursive' and isinstance(x.value, ast.Name) and x.value.id == 'self'
+                    for m_ in ('_captures', '_callee_ast') if m_ in meths for x in ast.walk(meths[m_]))
+    if reads_rec:
+        defaults = {}
+        for mname in ('apply_with_edits', 'sites', 'refusals'):
+            f_ = ctx.repo.methods(FI_, 'FuncInline', inherited=False).get(mname)
+            if f_ is None:
+                raise ShapeError(f'FuncInline.{mname} not found')
+            kw = {a.arg: d for a, d in zip(f_[2].args.kwonlyargs, f_[2].args.kw_defaults)}
+            defaults[mname] = norm(kw['recursive']) if kw.get('recursive') is not None else None
+        ctx.check(defaults['sites'] == defaults['refusals'] == defaults['apply_with_edits'] is not None, FI_, ctx.repo.methods(FI_, 'FuncInline', inherited=False)['sites'][2], 'FuncInline.sites',
+                  'sites() and refusals() take `recursive` with the default of the rewrite', f'defaults {defaults}: the listing is taken for another `recursive` than the rewrite runs with -- '
+                  'with h reading a captured k, g calling h and f binding a local k, sites(inline, f) lists g(k) and inline(f, 0) finds no site')
+        builders = [k for q_, f_ in ctx.repo.functions(FI_) if q_ in ('_lister', 'FuncInline.sites', 'FuncInline.refusals') for k in calls_in(f_) if call_name(k) == '_FuncInline']
+        for k in builders:
+            v = kwarg(k, 'recursive')
+            ctx.check(isinstance(v, ast.Name), FI_, k, '_lister', 'the rewriter a listing walks with is built with the caller\'s `recursive`',
+                      f'built with `recursive={norm(v) if v is not None else "<default>"}`, whatever the caller asks for')
     rf = funcs.get('_refuses')
     if rf is None:
         raise ShapeError('_refuses not found')
@@ -1688,6 +1709,8 @@ T = 'fpy2/transform/'
 FU, SL, WU, RI, FI = T + 'for_unroll.py', T + 'split_loop.py', T + 'while_unroll.py', T + 'round_insert.py', T + 'func_inline.py'
 
 MUTANTS = [
+    Mutant('listing-always-for-the-unflattened-callee', FI, "        None if funcs is None else set(funcs),\n        recursive=recursive,\n    )", "        None if funcs is None else set(funcs),\n        recursive=False,\n    )", 'C19.G2',
+           'finding F136 before its repair: the listing looks at the callee alone, the rewrite flattens it'),
     Mutant('captured-name-clash-found-after-the-site-is-counted', FI, "            captures=self._captures(e),\n", "", 'C19.G2',
            'finding F127 before its repair: sites(inline, f) lists the call and inline(f, 0) raises RuntimeError'),
     Mutant('only-a-local-clash-is-refused', FI, "            if str(name) in self.func.env and not _same_captured(\n                self.func.env.get(str(name)), e.fn.env.get(str(name))\n            ):", "            if False:", 'C19.G2',
